@@ -41,7 +41,7 @@ Config.max_limit = MAXL
 import lmdb  # noqa: E402  (the stand-in)
 from aionostr.event import Event  # noqa: E402
 from nostr_relay.storage import kv  # noqa: E402
-from nostr_relay.storage.base import NostrQuery  # noqa: E402
+from nostr_relay.storage.base import NostrQuery, BaseSubscription  # noqa: E402
 
 META = "x'y\"\\z) OR 1=1 --%_"
 PKB = {"0": "00", "7": "7f", "f": "ff"}
@@ -82,13 +82,15 @@ def universe():
     evs.append(mk("0", 1, 20, [["e", "\u00e9\u4e2d"]], n))               # non-ASCII
     n += 1
     evs.append(mk("f", 1, 10, [["e", "a"], ["p", PK["0"]]], n))       # two tag names
+    n += 1
+    evs.append(mk("7", 1, 20, [["delegation", PK["0"], "kind=1", "00" * 64]], n))   # NIP-26: posted by 7f.. on behalf of 00..
     return evs
 
 
 U = universe()
 ID0 = U[0].id          # author 00, kind 1, ts 10
 IDF = U[17].id         # author ff, kind 256, ts 20
-WINDOWS = [{}, {"since": 15}, {"until": 15}, {"since": 5, "until": 25}, {"since": 10}, {"until": 20}, {"since": 0}, {"since": 12, "until": 18}]
+WINDOWS = [{}, {"since": 15}, {"until": 15}, {"since": 5, "until": 25}, {"since": 10}, {"until": 20}, {"since": 0}, {"since": 12, "until": 18}, {"until": 0}]
 BASES = [
     {"kinds": [1]}, {"kinds": [2]}, {"kinds": [1, 2]}, {"kinds": [256]}, {"kinds": [0]}, {"kinds": [0, 256]},
     {"authors": [PK["0"]]}, {"authors": [PK["7"]]}, {"authors": [PK["f"]]}, {"authors": [PK["7"], PK["f"]]}, {"authors": [PK["0"], PK["f"]]},
@@ -122,11 +124,14 @@ def filters():
 F = filters()
 
 
-def oracle_fields(f, ev):
+def oracle_fields(f, ev, may=True):
+    """NIP-01 matching of the non-time fields.  may=True: the event MAY be returned (author or NIP-26 delegator, as C01 allows);
+    may=False: it MUST be returned (author only -- delegation support is optional)"""
     if "kinds" in f and ev.kind not in f["kinds"]:
         return False
     if "authors" in f and ev.pubkey not in f["authors"]:
-        return False
+        if not (may and any(len(t) > 1 and t[0] == "delegation" and t[1] in f["authors"] for t in ev.tags)):
+            return False
     if "ids" in f and ev.id not in f["ids"]:
         return False
     for k, vals in f.items():
@@ -314,7 +319,7 @@ def check_store(store):
         ncases += 1
         ids = [e.id for e in got]
         res.append(ids)
-        must = {e.id for e in evs if oracle_fields(f, e) and in_window(f, e, True)}
+        must = {e.id for e in evs if oracle_fields(f, e, False) and in_window(f, e, True)}
         may = {e.id for e in evs if oracle_fields(f, e) and in_window(f, e, False)}
         missing, extra = must - set(ids), set(ids) - may
         dup = {i for i in ids if ids.count(i) > 1}
@@ -345,9 +350,25 @@ def check_store(store):
                     fails.append(("C12", "not-newest", dict(base, limit=lim, sent=[i[:2] + ".." + i[-2:] for i in gids]), f, store))
             if len(must) <= min(lim, MAXL) and len(may) == len(must) and not missing and set(gids) != set(ids):
                 fails.append(("C12", "truncates-under-limit", dict(base, limit=lim), f, store))
+    # C05: live matching (BaseSubscription.check_event, the real function) against the oracle and against the stored answer
+    if len(store) == 1:
+        ev = evs[0]
+        for fi, f in enumerate(F):
+            live = bool(BaseSubscription.check_event(None, ev, [NostrQuery.model_validate(dict(f))]))
+            ncases += 1
+            strict_in = oracle_fields(f, ev, False) and in_window(f, ev, True)
+            may_in = oracle_fields(f, ev, True) and in_window(f, ev, False)
+            on_bound = ev.created_at in (f.get("since"), f.get("until"))
+            base = {"filter": f, "store": describe(evs), "live": live, "stored": bool(res[fi])}
+            if live and not may_in:
+                fails.append(("C05", "live-pushes-non-matching", base, f, store))
+            if strict_in and not live:
+                fails.append(("C05", "live-misses-matching", base, f, store))
+            if not on_bound and live != bool(res[fi]):
+                fails.append(("C05", "live-disagrees-with-stored", base, f, store))
     # an explicit "limit": null must not lift the configured cap
     for fi, f in enumerate(F):
-        if fi % 8:
+        if fi % len(WINDOWS) or fi >= len(BASES) * len(WINDOWS):
             continue          # the unwindowed variant of every base filter
         gn = be.query_multi([dict(f, limit=None)])
         ncases += 1
@@ -363,7 +384,7 @@ def check_store(store):
         got = be.query_multi([qa, qb])
         ncases += 1
         ids = [e.id for e in got]
-        musts = [{e.id for e in evs if oracle_fields(f, e) and in_window(f, e, True)} for f in (fa, fb)]
+        musts = [{e.id for e in evs if oracle_fields(f, e, False) and in_window(f, e, True)} for f in (fa, fb)]
         mays = [{e.id for e in evs if oracle_fields(f, e) and in_window(f, e, False)} for f in (fa, fb)]
         base = {"filters": [qa, qb], "store": describe(evs), "returned": [i[:2] + ".." + i[-2:] for i in ids]}
         if set(ids) - (mays[0] | mays[1]):
